@@ -24,7 +24,7 @@ type Case struct {
 	Cfg      []int            `json:"cfg,omitempty"`
 	Scale    int              `json:"scale,omitempty"`
 	Variant  int              `json:"variant,omitempty"` // non-period parameters scaled by variantFactor[Variant]
-	Pause    int              `json:"pause,omitempty"`   // seconds of simulated time the harness's consumers let pass before their 2nd, 5th and 11th receive
+	Pause    int              `json:"pause,omitempty"`   // seconds of simulated time the harness's consumers let pass before their 2nd, 5th and 11th receive and its producers before their 3rd and 7th send
 	Lens     []int            `json:"lens,omitempty"`
 	Shape    int              `json:"shape,omitempty"`
 	DataSeed int64            `json:"data_seed,omitempty"`
@@ -566,15 +566,17 @@ var pausable = map[string]bool{"C02": true, "C03": true, "C04": true, "C05": tru
 var (
 	consPause time.Duration
 	consCount atomic.Int64
+	prodCount atomic.Int64
 )
 
 // runCase runs one case with its consumer pacing installed.
 func runCase(ck Check, c *Case, st *Stats) []Violation {
 	consPause = time.Duration(c.Pause) * time.Second
 	consCount.Store(0)
+	prodCount.Store(0)
 	defer func() { consPause = 0 }()
 	if c.Pause > 0 {
-		st.Faults["slow-consumer(simulated-seconds-between-receives)"]++
+		st.Faults["slow-consumer-and-producer(simulated-seconds-between-values)"]++
 	}
 	return ck.Run(c, st)
 }
@@ -589,4 +591,16 @@ func consYield() {
 		}
 	}
 	simrt.Yield(-1, "cons-recv")
+}
+
+// prodYield is the scheduling point before a producer's send; in the slow-pacing cases the
+// producer lets simulated time pass before its 3rd and 7th value.
+func prodYield() {
+	if consPause > 0 {
+		switch prodCount.Add(1) {
+		case 3, 7:
+			simrt.Sleep(-31, consPause)
+		}
+	}
+	simrt.Yield(-2, "prod-send")
 }
